@@ -211,4 +211,281 @@ theorem ideal_traj_relabel (kd : Kind d) (σ : Equiv.Perm (Fin N)) (sched : List
   rw [hamSteps_relabel kd σ sched hU]
   exact traj_conj _ _ (siteP_mul_transpose σ) _ ψ
 
+/-! ### an ideal emulator on the `Problem` / `Res` types of `Props/C03.lean` -/
+section results
+open EmuVerif.Perm EmuVerif.Props.C03
+
+/-- the physics an emulator run is parameterised by: interaction kind, the single-site term a drive value stands for (ANY
+function), the measured single-site operator (`n̂`), the level a label character stands for, the default level, the step length -/
+structure Phys (d : ℕ) where
+  kind : Kind d
+  loc : ℂ → Matrix (Fin d) (Fin d) ℂ
+  obs : Matrix (Fin d) (Fin d) ℂ
+  lvl : Char → Fin d
+  gnd : Fin d
+  dt : ℝ
+
+variable (ph : Phys d)
+
+/-- atom `k` is dark -/
+def badF (N : ℕ) (P : Problem ℂ) (k : Fin N) : Bool := P.badAtoms.getD k.val false
+
+/-- coupling of atoms `i`, `j`: `½ (U_ij + U_ji)` (`= U_ij` for the symmetric matrices the back-end accepts) -/
+noncomputable def couplingF (N : ℕ) (P : Problem ℂ) (i j : Fin N) : ℂ :=
+  ((P.interaction.getD i.val []).getD j.val 0 + (P.interaction.getD j.val []).getD i.val 0) / 2
+
+/-- the step a drive row stands for; dark atoms lose their drive and all their couplings -/
+noncomputable def stepF (N : ℕ) (P : Problem ℂ) (row : List ℂ) : Step N d :=
+  ⟨fun m => if badF N P m then 0 else ph.loc (row.getD m.val 0),
+   fun i j => if badF N P i || badF N P j then 0 else couplingF N P i j, ph.dt⟩
+
+noncomputable def schedF (N : ℕ) (P : Problem ℂ) : List (Step N d) := P.drives.map (stepF ph N P)
+
+/-- the basis string a label stands for -/
+def labelF (N : ℕ) (l : List Char) : Cfg N d := fun k => ph.lvl (l.getD k.val ' ')
+
+/-- initial state `Σ amp • |label⟩`; `|g…g⟩` when none is given -/
+noncomputable def initF (N : ℕ) (P : Problem ℂ) : Cfg N d → ℂ :=
+  if P.initial.isEmpty then Pi.single (fun _ => ph.gnd) 1
+  else (P.initial.map (fun kv => kv.2 • (Pi.single (labelF ph N kv.1) (1 : ℂ) : Cfg N d → ℂ))).sum
+
+/-- (Hamiltonian, state) after every step of the ideal evolution -/
+noncomputable def trajF (N : ℕ) (P : Problem ℂ) : List (Matrix (Cfg N d) (Cfg N d) ℂ × (Cfg N d → ℂ)) :=
+  traj (hamSteps ph.kind (schedF ph N P)) (initF ph N P)
+
+noncomputable def occF (N : ℕ) (ψ : Cfg N d → ℂ) : List ℂ :=
+  List.ofFn (fun k : Fin N => expect (siteEmb N d k ph.obs) ψ)
+
+noncomputable def corrF (N : ℕ) (ψ : Cfg N d → ℂ) : List (List ℂ) :=
+  List.ofFn (fun i : Fin N => List.ofFn (fun j : Fin N => expect (siteEmb N d i ph.obs * siteEmb N d j ph.obs) ψ))
+
+/-- results of the ideal run for `N` atoms, atoms in the order the problem lists them -/
+noncomputable def core (N : ℕ) (P : Problem ℂ) : Res ℂ :=
+  { atomOrder := P.qubitIds
+    bitstrings := none
+    occupation := some ((trajF ph N P).map (fun x => occF ph N x.2))
+    correlation := some ((trajF ph N P).map (fun x => corrF ph N x.2))
+    others := [("energy", (trajF ph N P).map (fun x => expect x.1 x.2))] }
+
+/-- every list has (at least) one entry per atom -/
+def WF (N : ℕ) (P : Problem ℂ) : Prop :=
+  (∀ row ∈ P.drives, N ≤ row.length) ∧ N ≤ P.badAtoms.length ∧ (∀ kv ∈ P.initial, N ≤ kv.1.length) ∧
+    N ≤ P.interaction.length ∧ ∀ i : Fin N, N ≤ (P.interaction.getD i.val []).length
+
+/-- the answer to a malformed problem (Python raises) -/
+def dflt (P : Problem ℂ) : Res ℂ := ⟨P.qubitIds, none, none, none, []⟩
+
+open Classical in
+/-- **the ideal emulator** -/
+noncomputable def idealRun (P : Problem ℂ) : Res ℂ :=
+  if WF P.qubitIds.length P then core ph P.qubitIds.length P else dflt P
+
+/-! #### the reordered problem, read through the accessors -/
+
+variable {p : List ℕ} {P : Problem ℂ}
+
+theorem badF_reorder (hp : IsPerm N p) (hw : N ≤ P.badAtoms.length) (k : Fin N) :
+    badF N (P.reorder p) k = badF N P (permOf hp k) := getD_gatherT hp hw k false
+
+theorem getD_permuteMatT_row (hp : IsPerm N p) {m : List (List ℂ)} (hm : N ≤ m.length) (i : Fin N) :
+    (permuteMatT m p).getD i.val [] = gatherT (m.getD (permOf hp i).val []) p := by
+  unfold Perm.permuteMatT
+  have h1 : (permOf hp i).val < m.length := lt_of_lt_of_le (permOf hp i).2 hm
+  rw [List.getD_eq_getElem?_getD, List.getElem?_map, getElem?_gatherT_fin hp hm i,
+    List.getD_eq_getElem?_getD, List.getElem?_eq_getElem h1]
+  rfl
+
+theorem couplingF_reorder (hp : IsPerm N p) (hm : N ≤ P.interaction.length)
+    (hrows : ∀ i : Fin N, N ≤ (P.interaction.getD i.val []).length) (i j : Fin N) :
+    couplingF N (P.reorder p) i j = couplingF N P (permOf hp i) (permOf hp j) := by
+  have key : ∀ a b : Fin N, ((P.reorder p).interaction.getD a.val []).getD b.val 0
+      = (P.interaction.getD (permOf hp a).val []).getD (permOf hp b).val 0 := by
+    intro a b
+    show ((permuteMatT P.interaction p).getD a.val []).getD b.val 0 = _
+    rw [getD_permuteMatT_row hp hm a, getD_gatherT hp (hrows (permOf hp a)) b]
+  unfold couplingF
+  rw [key i j, key j i]
+
+theorem stepF_reorder (hp : IsPerm N p) (hw : WF N P) {row : List ℂ} (hrow : N ≤ row.length) :
+    stepF ph N (P.reorder p) (gatherT row p) = (stepF ph N P row).relabel (permOf hp) := by
+  obtain ⟨_, hbad, _, hm, hrows⟩ := hw
+  unfold stepF Step.relabel
+  simp only [Step.mk.injEq, and_true]
+  refine ⟨?_, ?_⟩
+  · funext m
+    rw [badF_reorder hp hbad, getD_gatherT hp hrow]
+  · funext i j
+    rw [badF_reorder hp hbad, badF_reorder hp hbad, couplingF_reorder hp hm hrows]
+
+theorem schedF_reorder (hp : IsPerm N p) (hw : WF N P) :
+    schedF ph N (P.reorder p) = (schedF ph N P).map (Step.relabel (permOf hp)) := by
+  unfold schedF
+  show ((P.drives.map (fun row => gatherT row p)).map (stepF ph N (P.reorder p))) = _
+  rw [List.map_map, List.map_map]
+  apply List.map_congr_left
+  intro row hr
+  exact stepF_reorder ph hp hw (hw.1 row hr)
+
+theorem schedF_symmetric (N : ℕ) (P : Problem ℂ) : ∀ s ∈ schedF ph N P, ∀ i j, s.U i j = s.U j i := by
+  intro s hs i j
+  unfold schedF at hs
+  obtain ⟨row, _, rfl⟩ := List.mem_map.mp hs
+  simp only [stepF, couplingF, Bool.or_comm (badF N P i), add_comm ((P.interaction.getD i.val []).getD j.val 0)]
+
+theorem labelF_reorder (hp : IsPerm N p) {l : List Char} (hl : N ≤ l.length) :
+    labelF ph N (gatherT l p) = labelF ph N l ∘ permOf hp := by
+  funext k
+  simp only [labelF, Function.comp_apply]
+  rw [getD_gatherT hp hl]
+
+theorem mulVec_list_sum {n : Type} [Fintype n] (M : Matrix n n ℂ) (l : List (n → ℂ)) :
+    M *ᵥ l.sum = (l.map (fun v => M *ᵥ v)).sum := by
+  induction l with
+  | nil => simp
+  | cons v l ih => simp [Matrix.mulVec_add, ih]
+
+theorem initF_reorder (hp : IsPerm N p) (hw : WF N P) :
+    initF ph N (P.reorder p) = siteP (permOf hp) *ᵥ initF ph N P := by
+  unfold initF
+  have hemp : (P.reorder p).initial.isEmpty = P.initial.isEmpty := by
+    show (P.initial.map _).isEmpty = _
+    rw [List.isEmpty_map]
+  rw [hemp]
+  split_ifs with h
+  · rw [siteP_basis]; rfl
+  · rw [mulVec_list_sum, List.map_map]
+    show ((P.initial.map (fun kv => (gatherT kv.1 p, kv.2))).map _).sum = _
+    rw [List.map_map]
+    congr 1
+    apply List.map_congr_left
+    intro kv hkv
+    simp only [Function.comp_apply]
+    rw [Matrix.mulVec_smul, siteP_basis, labelF_reorder ph hp (hw.2.2.1 kv hkv)]
+
+theorem trajF_reorder (hp : IsPerm N p) (hw : WF N P) :
+    trajF ph N (P.reorder p) = (trajF ph N P).map
+      (fun x => (siteP (permOf hp) * x.1 * (siteP (permOf hp))ᵀ, siteP (permOf hp) *ᵥ x.2)) := by
+  unfold trajF
+  rw [schedF_reorder ph hp hw, initF_reorder ph hp hw]
+  exact ideal_traj_relabel ph.kind (permOf hp) _ (schedF_symmetric ph N P) _
+
+theorem occF_siteP (hp : IsPerm N p) (ψ : Cfg N d → ℂ) :
+    occF ph N (siteP (permOf hp) *ᵥ ψ) = gatherT (occF ph N ψ) p := by
+  unfold occF
+  rw [gatherT_ofFn hp]
+  congr 1
+  funext k
+  rw [← siteEmb_conj (permOf hp) k ph.obs, expect_siteP]
+
+theorem corrF_siteP (hp : IsPerm N p) (ψ : Cfg N d → ℂ) :
+    corrF ph N (siteP (permOf hp) *ᵥ ψ) = permuteMatT (corrF ph N ψ) p := by
+  unfold corrF
+  rw [permuteMatT_ofFn hp]
+  congr 1
+  funext i
+  congr 1
+  funext j
+  rw [← pair_conj (permOf hp) ph.obs ph.obs i j, expect_siteP]
+
+/-- **the results of the ideal run of the reordered problem are the site-order view of the results of the original run** -/
+theorem core_reorder (hp : IsPerm N p) (hw : WF N P) :
+    core ph N (P.reorder p) = siteView p (core ph N P) := by
+  unfold core siteView
+  rw [trajF_reorder ph hp hw]
+  simp only [Option.map_some, Option.map_none, List.map_map, Res.mk.injEq, Option.some.injEq, true_and]
+  refine ⟨rfl, ?_, ?_, ?_⟩
+  · apply List.map_congr_left
+    intro x _
+    simp only [Function.comp_apply]
+    exact occF_siteP ph hp x.2
+  · apply List.map_congr_left
+    intro x _
+    simp only [Function.comp_apply]
+    exact corrF_siteP ph hp x.2
+  · congr 2
+    apply List.map_congr_left
+    intro x _
+    simp only [Function.comp_apply]
+    exact expect_siteP (permOf hp) x.1 x.2
+
+/-! #### well-formedness is invariant, results are well shaped -/
+
+theorem WF_reorder (hp : IsPerm N p) : WF N (P.reorder p) ↔ WF N P := by
+  have hrow : ∀ (m : List (List ℂ)), N ≤ m.length →
+      ((∀ i : Fin N, N ≤ ((permuteMatT m p).getD i.val []).length) ↔ ∀ i : Fin N, N ≤ (m.getD i.val []).length) := by
+    intro m hm
+    constructor
+    · intro h i
+      have := h ((permOf hp).symm i)
+      rw [getD_permuteMatT_row hp hm, Equiv.apply_symm_apply, le_length_gatherT_iff hp] at this
+      exact this
+    · intro h i
+      rw [getD_permuteMatT_row hp hm, le_length_gatherT_iff hp]
+      exact h _
+  have hlen : N ≤ (permuteMatT P.interaction p).length ↔ N ≤ P.interaction.length := by
+    unfold Perm.permuteMatT
+    rw [List.length_map, le_length_gatherT_iff hp]
+  unfold WF
+  show ((∀ row ∈ P.drives.map (fun row => gatherT row p), N ≤ row.length) ∧ N ≤ (gatherT P.badAtoms p).length ∧
+    (∀ kv ∈ P.initial.map (fun kv => (gatherT kv.1 p, kv.2)), N ≤ kv.1.length) ∧
+    N ≤ (permuteMatT P.interaction p).length ∧ ∀ i : Fin N, N ≤ ((permuteMatT P.interaction p).getD i.val []).length) ↔ _
+  simp only [List.forall_mem_map, le_length_gatherT_iff hp, hlen]
+  constructor
+  · rintro ⟨h1, h2, h3, h4, h5⟩
+    exact ⟨h1, h2, h3, h4, (hrow _ h4).mp h5⟩
+  · rintro ⟨h1, h2, h3, h4, h5⟩
+    exact ⟨h1, h2, h3, h4, (hrow _ h4).mpr h5⟩
+
+theorem core_wellShaped (N : ℕ) (P : Problem ℂ) (hN : P.qubitIds.length = N) : WellShaped N (core ph N P) where
+  atoms := hN
+  bits := by intro l hl; simp [core] at hl
+  occ := by
+    intro l hl v hv
+    simp only [core, Option.some.injEq] at hl
+    subst hl
+    obtain ⟨x, _, rfl⟩ := List.mem_map.mp hv
+    simp [occF]
+  corr := by
+    intro l hl m hm
+    simp only [core, Option.some.injEq] at hl
+    subst hl
+    obtain ⟨x, _, rfl⟩ := List.mem_map.mp hm
+    refine ⟨by simp [corrF], ?_⟩
+    intro row hrow
+    simp only [corrF, List.mem_ofFn] at hrow
+    obtain ⟨i, rfl⟩ := hrow
+    simp
+
+theorem dflt_wellShaped (P : Problem ℂ) : WellShaped P.qubitIds.length (dflt P) where
+  atoms := rfl
+  bits := by intro l hl; simp [dflt] at hl
+  occ := by intro l hl; simp [dflt] at hl
+  corr := by intro l hl; simp [dflt] at hl
+
+/-- **The ideal emulator is equivariant** — the assumption of `C03.C03_partial`, proved. -/
+theorem idealRun_equivariant : Equivariant (idealRun ph) := by
+  intro P p hp
+  have hlen : (P.reorder p).qubitIds.length = P.qubitIds.length := by
+    show (gatherT P.qubitIds p).length = _
+    exact length_gatherT_of_le hp (le_refl _)
+  constructor
+  · unfold idealRun
+    rw [hlen]
+    by_cases hw : WF P.qubitIds.length P
+    · rw [if_pos hw, if_pos ((WF_reorder hp).mpr hw)]
+      exact core_reorder ph hp hw
+    · rw [if_neg hw, if_neg (fun h => hw ((WF_reorder hp).mp h))]
+      rfl
+  · unfold idealRun
+    split_ifs
+    · exact core_wellShaped ph _ P rfl
+    · exact dflt_wellShaped P
+
+/-- **C03 at full strength for the ideal solver**: for every problem and every permutation of its atoms, emulating the
+reordered problem and un-permuting the results gives the results of the original problem — same values for every atom,
+atoms listed in register order, whole-register tags (energy) unchanged. -/
+theorem C03_ideal : C03_full (idealRun ph) := C03_partial (idealRun ph) (idealRun_equivariant ph)
+
+end results
+
 end EmuVerif.Props.C03Ideal
